@@ -143,10 +143,11 @@ func termdbMain(args []string) error {
 		cl = append(cl, n)
 	}
 	sort.Strings(cl)
-	envs := [][2]string{{"", ""}, {"truecolor", ""}, {"24bit", ""}, {"", "disable"}, {"truecolor", "disable"}, {"", "1"}, {"other", ""}}
+	// "=": the variable is set, to the empty string (means the same as unset)
+	envs := [][2]string{{"", ""}, {"truecolor", ""}, {"24bit", ""}, {"", "disable"}, {"truecolor", "disable"}, {"", "1"}, {"other", ""}, {"", "="}, {"=", ""}, {"truecolor", "="}}
 	lookup := func(name string, env [2]string, first bool, prev string) {
 		e, err := terminfo.LookupTerminfo(name)
-		ev := trace.Ev{"ev": "Lookup", "name": trace.Str(name), "env": map[string]interface{}{"colorterm": trace.Str(env[0]), "tcelltc": trace.Str(env[1])},
+		ev := trace.Ev{"ev": "Lookup", "name": trace.Str(name), "env": map[string]interface{}{"colorterm": trace.Str(strings.TrimPrefix(env[0], "=")), "tcelltc": trace.Str(strings.TrimPrefix(env[1], "="))},
 			"found": err == nil, "notfound": errors.Is(err, terminfo.ErrTermNotFound), "first": first, "prev": trace.Str(prev)}
 		if err == nil {
 			ev["e"] = project(e)
@@ -156,8 +157,8 @@ func termdbMain(args []string) error {
 	pairs := 0
 	doPair := func(a, b string, env [2]string) {
 		restore()
-		os.Setenv("COLORTERM", env[0])
-		os.Setenv("TCELL_TRUECOLOR", env[1])
+		os.Setenv("COLORTERM", strings.TrimPrefix(env[0], "="))
+		os.Setenv("TCELL_TRUECOLOR", strings.TrimPrefix(env[1], "="))
 		if env[0] == "" {
 			os.Unsetenv("COLORTERM")
 		}
